@@ -1,1 +1,459 @@
-// harnesses
+// Proof harnesses over trippy-core's IPv6 wire layer (child module of `net::ipv6`).
+// Properties: C02 (extract), C04 (receive path), C07 (Dublin payload slice), C11 (dispatch), C13 (Paris).
+use super::*;
+use crate::net::socket::Socket;
+
+include!(concat!(env!("TRIPPY_VERIF_HARNESS"), "/common.rs"));
+
+mod sock {
+    include!(concat!(env!("TRIPPY_VERIF_HARNESS"), "/sockets.rs"));
+}
+use sock::{sockstate, HSock};
+
+fn be16(b: &[u8], off: usize) -> u16 {
+    (u16::from(b[off]) << 8) | u16::from(b[off + 1])
+}
+
+fn ones_sum(b: &[u8], from: usize, to: usize, max: usize) -> u32 {
+    let mut s = 0u32;
+    let mut i = 0;
+    while i < max {
+        let p = from + i;
+        if p < to {
+            let hi = u32::from(b[p]);
+            let lo = if p + 1 < to { u32::from(b[p + 1]) } else { 0 };
+            s += (hi << 8) | lo;
+        }
+        i += 2;
+    }
+    s
+}
+
+fn fold(mut s: u32) -> u16 {
+    s = (s & 0xffff) + (s >> 16);
+    s = (s & 0xffff) + (s >> 16);
+    s = (s & 0xffff) + (s >> 16);
+    s as u16
+}
+
+fn v6sum(a: u128) -> u32 {
+    let mut s = 0u32;
+    let mut i = 0;
+    while i < 8 {
+        s += ((a >> (16 * i)) & 0xffff) as u32;
+        i += 1;
+    }
+    s
+}
+
+#[derive(Clone, Copy)]
+struct Expect {
+    active: bool,
+    size: usize, // bytes handed to send_to (no IPv6 header: the kernel builds it)
+    icmp: bool,
+    src: u128,
+    dst: u128,
+    icmp_id: u16,
+    icmp_seq: u16,
+    sport: u16,
+    dport: u16,
+    paris_seq: Option<u16>,
+    dublin: bool,
+    pattern: u8,
+}
+
+static mut EXPECT: Expect = Expect {
+    active: false, size: 0, icmp: false, src: 0, dst: 0, icmp_id: 0, icmp_seq: 0, sport: 0, dport: 0, paris_seq: None,
+    dublin: false, pattern: 0,
+};
+
+const MAXCHK: usize = 40;
+
+fn on_send(b: &[u8]) {
+    let e = unsafe { EXPECT };
+    if !e.active {
+        return;
+    }
+    assert!(b.len() == e.size, "datagram size");
+    if e.icmp {
+        // ICMPv6 echo request (RFC 4443)
+        assert!(b[0] == 128 && b[1] == 0, "echo request");
+        assert!(be16(b, 4) == e.icmp_id, "trace identifier");
+        assert!(be16(b, 6) == e.icmp_seq, "sequence in the ICMP sequence field");
+        let pseudo = v6sum(e.src) + v6sum(e.dst) + 58 + e.size as u32;
+        assert!(fold(pseudo + ones_sum(b, 0, e.size, MAXCHK)) == 0xffff, "ICMPv6 checksum verifies");
+        let mut i = 8;
+        while i < 8 + MAXCHK {
+            if i < e.size {
+                assert!(b[i] == e.pattern, "payload is the configured pattern");
+            }
+            i += 1;
+        }
+    } else {
+        assert!(be16(b, 0) == e.sport && be16(b, 2) == e.dport, "UDP ports");
+        assert!(usize::from(be16(b, 4)) == e.size, "UDP length consistent");
+        let pseudo = v6sum(e.src) + v6sum(e.dst) + 17 + e.size as u32;
+        assert!(fold(pseudo + ones_sum(b, 0, e.size, MAXCHK)) == 0xffff, "UDP checksum verifies");
+        if let Some(seq) = e.paris_seq {
+            assert!(be16(b, 6) == seq, "Paris: the UDP checksum field carries the sequence");
+        } else if e.dublin {
+            assert!(b[8] == b't' && b[9] == b'r' && b[10] == b'i' && b[11] == b'p' && b[12] == b'p' && b[13] == b'y', "Dublin marker");
+        } else {
+            let mut i = 8;
+            while i < 8 + MAXCHK {
+                if i < e.size {
+                    assert!(b[i] == e.pattern, "payload is the configured pattern");
+                }
+                i += 1;
+            }
+        }
+    }
+}
+
+fn any_ipv6_cfg(protocol: Protocol, size: u16, ext: bool) -> Ipv6 {
+    Ipv6 {
+        src_addr: any_ipv6(),
+        dest_addr: any_ipv6(),
+        packet_size: PacketSize(size),
+        payload_pattern: PayloadPattern(if option_env!("VERIF_THOROUGH").is_some() { kani::any() } else { 0xA5 }),
+        privilege_mode: PrivilegeMode::Privileged,
+        protocol,
+        icmp_extension_mode: if ext { IcmpExtensionParseMode::Enabled } else { IcmpExtensionParseMode::Disabled },
+        initial_sequence: Sequence(kani::any()),
+    }
+}
+
+fn any_probe(flags: Flags) -> Probe {
+    Probe::new(
+        Sequence(kani::any()),
+        TraceId(kani::any()),
+        Port(kani::any()),
+        Port(kani::any()),
+        TimeToLive(kani::any()),
+        RoundId(0),
+        UNIX_EPOCH,
+        flags,
+    )
+}
+
+// =========================================================================== C11: dispatch
+
+fn dispatch_icmp(size: u16) {
+    let ipv6 = any_ipv6_cfg(Protocol::Icmp, size, false);
+    let probe = any_probe(Flags::empty());
+    unsafe {
+        EXPECT = Expect {
+            active: true, size: usize::from(size) - 40, icmp: true, src: u128::from(ipv6.src_addr),
+            dst: u128::from(ipv6.dest_addr), icmp_id: probe.identifier.0, icmp_seq: probe.sequence.0, sport: 0,
+            dport: 0, paris_seq: None, dublin: false, pattern: ipv6.payload_pattern.0,
+        };
+    }
+    let mut s = HSock;
+    let (dst, ttl) = (ipv6.dest_addr, probe.ttl.0);
+    let r = ipv6.dispatch_icmp_probe(&mut s, probe);
+    assert!(r.is_ok());
+    unsafe {
+        assert!(sockstate::SEND_CALLS == 1, "exactly one datagram per probe");
+        assert!(sockstate::HOPS_SET == Some(ttl), "hop limit = probe ttl");
+        assert!(sockstate::SEND_ADDR == Some(SocketAddr::new(IpAddr::V6(dst), 0)), "sent to the target");
+    }
+}
+
+#[kani::proof]
+#[kani::unwind(45)]
+fn c11_v6_dispatch_icmp_min() {
+    dispatch_icmp(48);
+}
+#[kani::proof]
+#[kani::unwind(45)]
+fn c11_v6_dispatch_icmp_odd() {
+    dispatch_icmp(49);
+}
+#[kani::proof]
+#[kani::unwind(45)]
+fn c11_v6_dispatch_icmp_57() {
+    dispatch_icmp(57);
+}
+
+/// UDP (privileged): mode 0 classic, 1 Paris, 2 Dublin (payload = marker + (sequence - initial) bytes).
+fn dispatch_udp(size: u16, mode: u8, dublin_len: u16) {
+    let ipv6 = any_ipv6_cfg(Protocol::Udp, size, false);
+    let mut probe = any_probe(match mode {
+        1 => Flags::PARIS_CHECKSUM,
+        2 => Flags::DUBLIN_IPV6_PAYLOAD_LENGTH,
+        _ => Flags::empty(),
+    });
+    if mode == 2 {
+        // the state machine guarantees sequence - initial + 6 <= 976 (c07_next_probe_sym_v6); here the
+        // payload length is a concrete representative so the copy loops have a constant bound
+        kani::assume(ipv6.initial_sequence.0 <= u16::MAX - dublin_len);
+        probe.sequence = Sequence(ipv6.initial_sequence.0 + dublin_len);
+    }
+    let sent = match mode {
+        1 => 10,
+        2 => 8 + 6 + usize::from(dublin_len),
+        _ => usize::from(size) - 40,
+    };
+    unsafe {
+        EXPECT = Expect {
+            active: true, size: sent, icmp: false, src: u128::from(ipv6.src_addr), dst: u128::from(ipv6.dest_addr),
+            icmp_id: 0, icmp_seq: 0, sport: probe.src_port.0, dport: probe.dest_port.0,
+            paris_seq: if mode == 1 { Some(probe.sequence.0) } else { None }, dublin: mode == 2,
+            pattern: ipv6.payload_pattern.0,
+        };
+    }
+    let mut s = HSock;
+    let (dst, ttl) = (ipv6.dest_addr, probe.ttl.0);
+    let r = ipv6.dispatch_udp_probe(&mut s, probe);
+    assert!(r.is_ok());
+    unsafe {
+        assert!(sockstate::SEND_CALLS == 1, "exactly one datagram per probe");
+        assert!(sockstate::HOPS_SET == Some(ttl), "hop limit = probe ttl");
+        assert!(sockstate::SEND_ADDR == Some(SocketAddr::new(IpAddr::V6(dst), 0)), "sent to the target");
+    }
+}
+
+#[kani::proof]
+#[kani::unwind(45)]
+fn c11_v6_dispatch_udp_min() {
+    dispatch_udp(48, 0, 0);
+}
+#[kani::proof]
+#[kani::unwind(45)]
+fn c11_v6_dispatch_udp_57() {
+    dispatch_udp(57, 0, 0);
+}
+#[kani::proof]
+#[kani::unwind(45)]
+fn c13_v6_dispatch_udp_paris() {
+    dispatch_udp(57, 1, 0);
+}
+#[kani::proof]
+#[kani::unwind(45)]
+fn c11_v6_dispatch_udp_dublin_0() {
+    dispatch_udp(57, 2, 0);
+}
+#[kani::proof]
+#[kani::unwind(45)]
+fn c11_v6_dispatch_udp_dublin_21() {
+    dispatch_udp(57, 2, 21);
+}
+
+/// C07: the Dublin/IPv6 payload slice `[..(sequence - initial) + 6]` taken from the 976-byte payload
+/// buffer is in range for every sequence offset the state machine can issue (0..=970), and out of
+/// the stated range the slice is the only thing that can fail.  The checksum is cut (its own
+/// correctness is C13) so that the length can stay symbolic.
+fn stub_udp6_ck(_data: &[u8], _src: Ipv6Addr, _dst: Ipv6Addr) -> u16 {
+    kani::any()
+}
+
+#[kani::proof]
+#[kani::unwind(3)]
+#[kani::stub(trippy_packet::checksum::udp_ipv6_checksum, stub_udp6_ck)]
+fn c07_v6_dublin_payload_slice_in_range() {
+    let ipv6 = any_ipv6_cfg(Protocol::Udp, 57, false);
+    let mut probe = any_probe(Flags::DUBLIN_IPV6_PAYLOAD_LENGTH);
+    let off: u16 = kani::any();
+    kani::assume(off <= 970 && ipv6.initial_sequence.0 <= u16::MAX - off);
+    probe.sequence = Sequence(ipv6.initial_sequence.0 + off);
+    let mut s = HSock;
+    let r = ipv6.dispatch_udp_probe(&mut s, probe);
+    assert!(r.is_ok());
+    kani::cover!(off == 970, "largest payload");
+}
+
+#[kani::proof]
+#[kani::unwind(34)]
+fn c11_v6_size_guards() {
+    let size: u16 = kani::any();
+    kani::assume(size < 48 || size > 1024);
+    let udp: bool = kani::any();
+    let ipv6 = any_ipv6_cfg(if udp { Protocol::Udp } else { Protocol::Icmp }, size, false);
+    let probe = any_probe(Flags::empty());
+    let mut s = HSock;
+    let r = if udp { ipv6.dispatch_udp_probe(&mut s, probe) } else { ipv6.dispatch_icmp_probe(&mut s, probe) };
+    match r {
+        Err(Error::InvalidPacketSize(n)) => assert!(n == usize::from(size)),
+        _ => assert!(false, "size guard"),
+    }
+    assert!(unsafe { sockstate::SEND_CALLS } == 0);
+    kani::cover!(size == 47, "just below");
+    kani::cover!(size == 1025, "just above");
+}
+
+#[kani::proof]
+#[kani::unwind(34)]
+fn c11_v6_dispatch_tcp() {
+    let ipv6 = any_ipv6_cfg(Protocol::Tcp, 48, false);
+    let probe = any_probe(Flags::empty());
+    let (b, c): (u8, u8) = kani::any();
+    kani::assume(b <= 7 && c <= 7);
+    unsafe {
+        sockstate::BIND_OUTCOME = b;
+        sockstate::CONNECT_OUTCOME = c;
+    }
+    let r = ipv6.dispatch_tcp_probe::<HSock>(&probe);
+    let local = SocketAddr::new(IpAddr::V6(ipv6.src_addr), probe.src_port.0);
+    let remote = SocketAddr::new(IpAddr::V6(ipv6.dest_addr), probe.dest_port.0);
+    unsafe {
+        assert!(sockstate::BIND_ADDR == Some(local), "bound to source address and source port");
+    }
+    let bind_ok = b == 0 || b == 5;
+    if !bind_ok {
+        match (b, &r) {
+            (1, Err(Error::AddressInUse(a))) => assert!(*a == local),
+            (_, Err(Error::IoError(_))) => assert!(b != 1),
+            _ => assert!(false, "bind error mapping"),
+        }
+    } else {
+        unsafe {
+            assert!(sockstate::HOPS_SET == Some(probe.ttl.0), "hop limit = probe ttl");
+            assert!(sockstate::CONNECT_ADDR == Some(remote), "connects to the target and destination port");
+        }
+        match (c, &r) {
+            (0 | 5, Ok(_)) => {}
+            (1, Err(Error::AddressInUse(a))) => assert!(*a == remote),
+            (_, Err(Error::IoError(_))) => assert!(c != 0 && c != 1 && c != 5),
+            _ => assert!(false, "connect error mapping"),
+        }
+    }
+    kani::cover!(r.is_ok(), "connected");
+    std::mem::forget(r);
+}
+
+// =========================================================================== C04 / C01: the receive path
+
+fn arm_read() -> usize {
+    let bytes: [u8; sockstate::RBUF] = kani::any();
+    let len: usize = kani::any();
+    kani::assume(len <= sockstate::RBUF);
+    unsafe {
+        sockstate::READ_BYTES = bytes;
+        sockstate::READ_LEN = len;
+        sockstate::READ_ERR = 0;
+        sockstate::RECV_ADDR_KIND = if kani::any() { 0 } else { 1 };
+        sockstate::RECV_ADDR = kani::any();
+    }
+    len
+}
+
+fn recv_no_panic(protocol: Protocol, ext: bool) {
+    let ipv6 = any_ipv6_cfg(protocol, 84, ext);
+    let len = arm_read();
+    let now_s: u32 = kani::any();
+    clock::set(0, u64::from(now_s), 0);
+    clock::set(1, u64::from(now_s), 0);
+    clock::set(2, u64::from(now_s), 0);
+    let mut s = HSock;
+    let r = ipv6.recv_icmp_probe(&mut s);
+    let b = unsafe { sockstate::READ_BYTES };
+    if let Ok(Some(resp)) = &r {
+        let d = resp.data();
+        assert!(unsafe { sockstate::RECV_ADDR_KIND } == 0);
+        assert!(d.addr == IpAddr::V6(Ipv6Addr::from(unsafe { sockstate::RECV_ADDR })), "responder = recv_from address");
+        assert!(d.recv == clock::mk(u64::from(now_s), 0), "receive time = clock reading taken in the call");
+        match resp {
+            Response::TimeExceeded(_, code, _) => assert!(b[0] == 3 && code.0 == b[1] && code.0 == 0),
+            Response::DestinationUnreachable(_, code, _) => assert!(b[0] == 1 && code.0 == b[1]),
+            Response::EchoReply(_, code) => assert!(b[0] == 129 && code.0 == b[1] && matches!(protocol, Protocol::Icmp)),
+            _ => assert!(false, "no TCP responses on the ICMP path"),
+        }
+    }
+    kani::cover!(matches!(r, Ok(Some(Response::TimeExceeded(..)))), "time exceeded recognised");
+    kani::cover!(matches!(r, Ok(Some(Response::DestinationUnreachable(..)))), "destination unreachable recognised");
+    kani::cover!(matches!(r, Err(_)), "malformed datagram rejected with an error value");
+    kani::cover!(matches!(r, Ok(None)) && len >= 8, "unrelated datagram ignored");
+    std::mem::forget(r);
+}
+
+#[kani::proof]
+#[kani::unwind(100)]
+#[kani::stub(std::time::SystemTime::now, clock::now_stub)]
+fn c04_v6_recv_icmp() {
+    recv_no_panic(Protocol::Icmp, false);
+}
+#[kani::proof]
+#[kani::unwind(100)]
+#[kani::stub(std::time::SystemTime::now, clock::now_stub)]
+fn c04_v6_recv_udp() {
+    recv_no_panic(Protocol::Udp, false);
+}
+#[kani::proof]
+#[kani::unwind(100)]
+#[kani::stub(std::time::SystemTime::now, clock::now_stub)]
+fn c04_v6_recv_tcp() {
+    recv_no_panic(Protocol::Tcp, false);
+}
+
+// =========================================================================== C02: parse honours the wire contract
+
+const QN: usize = if option_env!("VERIF_THOROUGH").is_some() { 80 } else { 64 };
+
+fn extract_contract(protocol: Protocol) {
+    let ipv6 = any_ipv6_cfg(protocol, 84, false);
+    let q: [u8; QN] = kani::any();
+    let len: usize = kani::any();
+    // "as much of the invoking packet as fits": header + at least the first 8 octets of the payload
+    // (a TCP quotation shorter than the 20-byte TCP header is rejected with an error value, below)
+    kani::assume(len >= 48 && len <= QN);
+    let pkt = Ipv6Packet::new_view(&q[..len]).unwrap();
+    let r = ipv6.extract_probe_proto_resp(&pkt);
+    let dest = IpAddr::V6(Ipv6Addr::from(u128::from_be_bytes([
+        q[24], q[25], q[26], q[27], q[28], q[29], q[30], q[31], q[32], q[33], q[34], q[35], q[36], q[37], q[38], q[39],
+    ])));
+    let tc = ((q[0] & 0xf) << 4) | (q[1] >> 4);
+    let plen = usize::from(be16(&q, 4));
+    let avail = if 40 + plen < len { plen } else { len - 40 }; // nested payload bytes visible to the parser
+    let want_proto = match protocol {
+        Protocol::Icmp => 58,
+        Protocol::Udp => 17,
+        Protocol::Tcp => 6,
+    };
+    match r {
+        Ok(Some(ProtocolResponse::Icmp(i))) => {
+            assert!(q[6] == 58 && want_proto == 58);
+            assert!(i.identifier == be16(&q, 44) && i.sequence == be16(&q, 46));
+            assert!(i.tos == Some(TypeOfService(tc)));
+        }
+        Ok(Some(ProtocolResponse::Udp(u))) => {
+            assert!(q[6] == 17 && want_proto == 17);
+            assert!(u.src_port == be16(&q, 40) && u.dest_port == be16(&q, 42));
+            assert!(u.actual_udp_checksum == be16(&q, 46));
+            let magic = avail >= 14 && q[48] == b't' && q[49] == b'r' && q[50] == b'i' && q[51] == b'p' && q[52] == b'p' && q[53] == b'y';
+            assert!(u.has_magic == magic, "Dublin marker detected exactly when present");
+            let l = be16(&q, 44).saturating_sub(8);
+            assert!(u.payload_len == if magic { l.saturating_sub(6) } else { l });
+            assert!(u.dest_addr == dest && u.tos == Some(TypeOfService(tc)));
+        }
+        Ok(Some(ProtocolResponse::Tcp(t))) => {
+            assert!(q[6] == 6 && want_proto == 6);
+            assert!(t.src_port == be16(&q, 40) && t.dest_port == be16(&q, 42));
+            assert!(t.dest_addr == dest && t.tos == Some(TypeOfService(tc)));
+        }
+        Ok(None) => assert!(q[6] != want_proto, "a quotation of another protocol is never accepted"),
+        Err(_) => {
+            // only a quotation too short for the transport header is an error value
+            let need = if want_proto == 6 { 20 } else { 8 };
+            assert!(q[6] == want_proto && avail < need);
+        }
+    }
+    kani::cover!(matches!(protocol, Protocol::Udp) && q[6] == 17 && q[48] == b't' && q[53] == b'y' && avail >= 14, "marker");
+    kani::cover!(q[6] == want_proto && len == QN, "long quotation");
+    kani::cover!(q[6] != want_proto, "other protocol");
+}
+
+#[kani::proof]
+#[kani::unwind(24)]
+fn c02_v6_extract_icmp() {
+    extract_contract(Protocol::Icmp);
+}
+#[kani::proof]
+#[kani::unwind(24)]
+fn c02_v6_extract_udp() {
+    extract_contract(Protocol::Udp);
+}
+#[kani::proof]
+#[kani::unwind(24)]
+fn c02_v6_extract_tcp() {
+    extract_contract(Protocol::Tcp);
+}
